@@ -171,9 +171,13 @@ func TestC10(t *testing.T) {
 	repo := NewRepo(t)
 
 	if replay := ReplayInputs[c10In](t); replay != nil {
+		worlds := ReplayInputs[WorldIn](t)
 		for i, c := range replay {
 			if c.Kind != "paths" {
-				continue // lines of another generator of C10
+				if i < len(worlds) && len(worlds[i].World.Log) > 0 {
+					replayWorld(t, "C01", i+1, worlds[i], out) // a layer (b) history
+				}
+				continue
 			}
 			c10Run(t, repo, c, i+1, out)
 		}
@@ -183,6 +187,90 @@ func TestC10(t *testing.T) {
 	for i := 0; i < n; i++ {
 		c10Run(t, repo, genC10(rng), shard*1000000+i+1, out)
 	}
+	// layer (b): histories with file rules on real repositories, judged by the declarative
+	// per-path authorization of Spec/C01 (one world case for every ten codec cases)
+	for i := 0; i < (n+9)/10; i++ {
+		c10WorldCase(t, shard*1000000+500000+i+1, NewRng(rng.U64()), out)
+	}
 	fsckRepo(t, repo.GetGitDir())
 	_ = fmt.Sprint
+}
+
+// c10WorldCase: a policy with file rules (and, half of the time, global rules), one to three pushes
+// by the principal authorized for the branch; every pushed commit (sometimes with an unpushed
+// intermediate commit) changes one to three paths drawn from protected and unprotected directories,
+// sorting before and after the protected ones, and is signed by the file rule's principal, by
+// another principal, by an outsider or not at all.
+func c10WorldCase(t *testing.T, id int, r *Rng, out *Out) {
+	main := "refs/heads/main"
+	b := NewWorldBuilder(t)
+	p := basePolicy()
+	p.Files[0].Rules = append(p.Files[0].Rules, RuleSpec{Name: "protect-src", Patterns: []string{"file:src/*"}, Principals: []int{1003}, Threshold: 1})
+	if r.Chance(40) {
+		owner := []int{1002, 1003}[r.Intn(2)]
+		p.Files[0].Rules = append(p.Files[0].Rules, RuleSpec{Name: "protect-lib", Patterns: []string{"file:lib/*"}, Principals: []int{owner}, Threshold: 1})
+	}
+	if r.Chance(50) {
+		switch r.Intn(3) {
+		case 0:
+			p.Root.GlobalRules = []GlobalRuleSpec{{Name: "unrelated", Kind: "threshold", Patterns: []string{"git:refs/heads/unrelated"}, Threshold: 1}}
+		case 1:
+			p.Root.GlobalRules = []GlobalRuleSpec{{Name: "g-src", Kind: "threshold", Patterns: []string{"file:src/*"}, Threshold: 1 + r.Intn(2)}}
+		default:
+			p.Root.GlobalRules = []GlobalRuleSpec{{Name: "g-bfp", Kind: "block-force-pushes", Patterns: []string{"git:" + main}}}
+		}
+	}
+	b.AddPolicy(p, true)
+	pool := []string{"LICENSE", "README", "docs/a", "lib/l.go", "src/a.go", "src/b.go", "tests/t", "zz"}
+	files := []WFile{}
+	blob := 0
+	var parent *int
+	touch := func() {
+		k := 1 + r.Intn(3)
+		for j := 0; j < k; j++ {
+			path := pool[r.Intn(len(pool))]
+			blob++
+			found := false
+			for i := range files {
+				if files[i].Path == path {
+					files[i].Blob = blob
+					found = true
+				}
+			}
+			if !found {
+				files = append(files, WFile{Path: path, Blob: blob})
+			}
+		}
+	}
+	signer := func() *int {
+		switch x := r.Intn(100); {
+		case x < 45:
+			return ip(3)
+		case x < 70:
+			return ip(2)
+		case x < 90:
+			return ip(kOutsider)
+		default:
+			return nil
+		}
+	}
+	for i, n := 0, 1+r.Intn(3); i < n; i++ {
+		if r.Chance(30) { // an intermediate commit that is never pushed on its own
+			touch()
+			c := b.AddCommit(parent, b.AddTree(append([]WFile{}, files...)), signer())
+			parent = ip(c)
+		}
+		touch()
+		c := b.AddCommit(parent, b.AddTree(append([]WFile{}, files...)), signer())
+		parent = ip(c)
+		b.Push(main, c, ip(2))
+	}
+	qs := []VQuery{{Mode: "full", Ref: main}, {Mode: "latest", Ref: main}}
+	line := WorldLine{Prop: "C01", ID: id, In: WorldIn{World: b.Snapshot(), Queries: qs}, Meta: "c10-layer-b"}
+	for _, q := range qs {
+		line.Impl = append(line.Impl, RunQuery(b, q))
+	}
+	if err := out.Emit(line); err != nil {
+		t.Fatal(err)
+	}
 }
